@@ -16,6 +16,9 @@ def gen_dag(rng, n=10, prefix='N', enum_heavy=False):
     def num_ref():
         """a small positive number or a name denoting one"""
         pool = [(n_, v) for n_, v in consts + enumerators if 1 <= v <= 4]
+        epool = [(n_, v) for n_, v in enumerators if 1 <= v <= 4]
+        if epool and rng.random() < 0.3:
+            return rng.choice(epool)
         if pool and rng.random() < 0.6:
             return rng.choice(pool)
         v = rng.randint(1, 3)
@@ -84,7 +87,9 @@ def gen_dag(rng, n=10, prefix='N', enum_heavy=False):
             enumerators.extend((n_, v) for n_, _, v in mem)
             fixed_types.append(name)
         elif r < 0.50:
-            target = rng.choice(fixed_types + S.INTS)
+            structs_so_far = [d.name for d in sc.decls if isinstance(d, S.Struct) and d.name in fixed_types]
+            # a typedef naming a struct pulls the struct in front of the enums (isar lists typedefs before enums)
+            target = rng.choice(structs_so_far) if structs_so_far and rng.random() < 0.5 else rng.choice(fixed_types + S.INTS)
             sc.decls.append(S.Typedef(name, target))
             fixed_types.append(name)
         elif r < 0.62 and fixed_types:
@@ -113,7 +118,10 @@ def gen_dag(rng, n=10, prefix='N', enum_heavy=False):
                 elif q < 0.75:
                     e, v = num_ref()
                     ms.append(S.Member('f%d' % j, t, 'fixed', size=e if not e.isdigit() else int(e)))
-                elif q < 0.85:
+                elif q < 0.81:
+                    e, v = num_ref()
+                    ms.append(S.Member('f%d' % j, t, 'limited', size=e if not e.isdigit() else int(e)))
+                elif q < 0.88:
                     ms.append(S.Member('f%d' % j, t, 'optional'))
                 else:
                     ms.append(S.Member('f%d' % j, t, 'dyn'))
@@ -122,6 +130,31 @@ def gen_dag(rng, n=10, prefix='N', enum_heavy=False):
             if not dyn:
                 fixed_types.append(name)
     return sc
+
+
+def directed_sets():
+    """hand-made acyclic definition sets with the dependency shapes that are rare in the random ones"""
+    M = S.Member
+    out = []
+    # a struct that needs an enumerator for a limited / fixed array size, and is pulled forward by a typedef naming it
+    sc = S.Schema()
+    sc.decls += [S.Const('MAXN', 3), S.Enum('ESlot', [('ESlot_First', 1), ('ESlot_Last', 'MAXN')]),
+                 S.Struct('SItem', [M('a', 'u8', 'limited', size='ESlot_Last'), M('b', 'u16')]),
+                 S.Typedef('TItem', 'SItem'), S.Struct('SBox', [M('x', 'TItem'), M('y', 'TItem', 'fixed', size='ESlot_First')])]
+    out.append(sc)
+    # a union whose discriminators are enumerators, named by a typedef used in a struct sized by a constant built from an enumerator
+    sc = S.Schema()
+    sc.decls += [S.Enum('EKind', [('EKind_A', 1), ('EKind_B', 2)]), S.Const('TWICE', '2*EKind_B'),
+                 S.Union('UVal', [('a', 'EKind_A', 'u8'), ('b', 'EKind_B', 'u32')]), S.Typedef('TVal', 'UVal'),
+                 S.Struct('SHold', [M('v', 'TVal', 'fixed', size='TWICE'), M('w', 'u8', 'limited', size='EKind_B')])]
+    out.append(sc)
+    # enumerators of one enum using its own earlier ones and two other enums
+    sc = S.Schema()
+    sc.decls += [S.Enum('EA', [('EA_x', 1)]), S.Enum('EB', [('EB_x', 2)]),
+                 S.Enum('EAll', [('EAll_a', 'EA_x + EB_x'), ('EAll_b', 'EAll_a + 1'), ('EAll_c', '2*EAll_b')]),
+                 S.Struct('SUse', [M('q', 'u8', 'fixed', size='EAll_a')])]
+    out.append(sc)
+    return out
 
 
 def symbol_owner(sc):
